@@ -400,10 +400,8 @@ def rule_doc_in_range(prog):
             d = hir.path_def(call["args"][0]) if call["args"] else None
             if not d or (d.get("rp") or d["p"]) not in comments:
                 continue
-            if b["d"].startswith("<ast::Identifier as") or b["d"].startswith("<ast::IntLiteral as"):
-                # a leaf token node: the comments in front of its token belong to the enclosing node's range, not to the token's
-                # (IDENT-RANGE demands exactly that)
-                continue
+            # (leaf token nodes included: a node's token range covers its leading comments; what the features report is the *text*
+            # range, which AstInfo::to_text_range starts behind them - IDENT-RANGE)
             n += 1
             inside = any(p.get("k") == "Call" and (hir.callee(p) or "").endswith("parser::utility::info") for p in parents)
             out.add(b["d"], "leading comments are consumed inside the node's info(..) range", inside, c.loc(call["sp"]),
